@@ -406,6 +406,68 @@ def run_sched(spec, res):
         pass
 
 
+def run_epochs(spec, res):
+    """Several epochs over ONE profiling wrapper whose pipeline reorders per
+    epoch (equally seeded reshuffle in the plain twin): examples, order and
+    (key, example) pairing of every epoch equal the twin's - whatever the
+    wrapper memoises must not outlive an epoch."""
+    import numpy as np
+    ld = import_lazy_dataset()
+
+    def f(x):
+        return ('f', x)
+    heads = {'plain': lambda d: d, 'map': lambda d: d.map(f)}
+    rnd = {'reshuffle': lambda d, r: d.shuffle(True, rng=r),
+           'local3': lambda d, r: d.shuffle(True, rng=r, buffer_size=3)}
+    tails = {
+        'none': lambda d: d, 'map': lambda d: d.map(f),
+        'items': lambda d: d.items(),
+        'items-prefetcht': lambda d: d.items().prefetch(2, 4, 't'),
+        'prefetcht-items': lambda d: d.prefetch(2, 4, 't').items(),
+        'catch-items': lambda d: d.catch().items(),
+        'map-catch': lambda d: d.map(f).catch(),
+        'prefetch1': lambda d: d.prefetch(1, 3),
+        'batch2': lambda d: d.batch(2),
+        'prefetcht-catch': lambda d: d.prefetch(2, 2, 't', catch_filter_exception=True),
+        'key_zip-self-map': lambda d: d.key_zip(d.map(f)),
+    }
+    for n in (0, 1, 5, 12):
+        for hn, head in heads.items():
+            for rn, rd in rnd.items():
+                for tn, tail in tails.items():
+                    if rn == 'local3' and 'prefetcht' in tn or tn.startswith('key_zip') \
+                            and rn != 'reshuffle':
+                        continue
+                    for seed in range(spec['nseeds']):
+                        case = {'n': n, 'head': hn, 'random_stage': rn, 'tail': tn,
+                                'seed': seed}
+                        src = {f'k{i}': i for i in range(n)}
+
+                        def build():
+                            return tail(rd(head(ld.new(src)), np.random.RandomState(seed)))
+                        try:
+                            twin = build()
+                            want = [list(twin) for _ in range(3)]
+                        except BaseException:
+                            res.count('epoch_pipelines_not_offered')
+                            continue
+                        # key_zip of a reshuffle with itself: known finding
+                        # C12-reshuffle-shared-permutation makes the twin no reference
+                        try:
+                            prof = ld.core.ProfilingDataset(build())
+                            got = [list(prof) for _ in range(3)]
+                        except BaseException as e:
+                            res.violation('profiling-changes-observation', case,
+                                          exc_sig(e), sig={'aspect': 'epochs', 'tail': tn})
+                            continue
+                        res.case(('epochs', n, hn, rn, tn, seed), n >= 2)
+                        res.count('multi_epoch_transparency_comparisons')
+                        if got != want:
+                            res.violation('profiling-changes-observation', case,
+                                          {'profiled_epochs': got, 'plain_epochs': want},
+                                          sig={'aspect': 'epochs', 'tail': tn})
+
+
 def shards(tier, seed):
     lim = LIMITS[tier]
     J = 14
@@ -414,6 +476,7 @@ def shards(tier, seed):
     nr = 2 if tier == 'quick' else 16
     for j in range(nr):
         out.append({'name': f'rand{j}', 'what': 'rand', 'count': lim['nrand'] // nr})
+    out.append({'name': 'epochs', 'what': 'epochs', 'nseeds': 3 if tier == 'quick' else 40})
     out.append({'name': 'sched', 'what': 'sched',
                 'sched_runs': 40 if tier == 'quick' else 1500,
                 'sched_dfs_cap': 300 if tier == 'quick' else 30000})
@@ -423,6 +486,8 @@ def shards(tier, seed):
 def run_shard(spec, res):
     if spec['what'] == 'sched':
         return run_sched(spec, res)
+    if spec['what'] == 'epochs':
+        return run_epochs(spec, res)
     ld = import_lazy_dataset()
     if spec['what'] == 'exh':
         cnt = 0
